@@ -349,7 +349,31 @@ func (i *interpreter) fpMul(a, b *Term) *Term {
 		a, b = b, a
 	}
 	i.noteUF("fmul")
-	return st.UF("fmul", SFP, a, b)
+	r := st.UF("fmul", SFP, a, b)
+	i.ufNaNAxiom(r, a, b, true)
+	return r
+}
+
+// ufNaNAxiom: IEEE facts about the product/quotient that the uninterpreted
+// result must respect: it is NaN only for NaN operands or 0*inf (mul), 0/0 or
+// inf/inf (div).
+func (i *interpreter) ufNaNAxiom(r, a, b *Term, mul bool) {
+	if i.ps == nil {
+		return
+	}
+	st := i.st
+	nanIn := st.Or(st.FPPred("fp.isNaN", a), st.FPPred("fp.isNaN", b))
+	az := st.FPCmp("fp.eq", a, st.FPConst(0))
+	bz := st.FPCmp("fp.eq", b, st.FPConst(0))
+	ai := st.FPPred("fp.isInfinite", a)
+	bi := st.FPPred("fp.isInfinite", b)
+	var special *Term
+	if mul {
+		special = st.Or(st.And(az, bi), st.And(ai, bz))
+	} else {
+		special = st.Or(st.And(az, bz), st.And(ai, bi))
+	}
+	i.addFact(st.Eq(st.FPPred("fp.isNaN", r), st.Or(nanIn, special)))
 }
 
 func (i *interpreter) fpDiv(a, b *Term) *Term {
@@ -364,7 +388,9 @@ func (i *interpreter) fpDiv(a, b *Term) *Term {
 		return st.FPConst(a.F / b.F)
 	}
 	i.noteUF("fdiv")
-	return st.UF("fdiv", SFP, a, b)
+	r := st.UF("fdiv", SFP, a, b)
+	i.ufNaNAxiom(r, a, b, false)
+	return r
 }
 
 // ---------------------------------------------------------------- binop / unop
@@ -540,6 +566,20 @@ func (i *interpreter) symConv(tDst types.Type, x sym) value {
 		}
 		return i.mkSym(st.ZExt(x.t, w), dk)
 	case isIntKind(x.k) && dk == types.Float64:
+		if i.cfg.AbstractConv {
+			i.noteUF("i2f")
+			var r *Term
+			if kindSigned(x.k) {
+				r = st.UF("i2f_s", SFP, st.SExt(x.t, 64))
+			} else {
+				r = st.UF("i2f_u", SFP, st.ZExt(x.t, 64))
+			}
+			// an integer converts to a finite float
+			if i.ps != nil {
+				i.addFact(st.Not(st.Or(st.FPPred("fp.isNaN", r), st.FPPred("fp.isInfinite", r))))
+			}
+			return sym{r, dk}
+		}
 		if kindSigned(x.k) {
 			return i.mkSym(st.app("fp_of_sbv", SFP, x.t), dk)
 		}
@@ -551,6 +591,14 @@ func (i *interpreter) symConv(tDst types.Type, x sym) value {
 			panic(unsupported{"EXACT-domain float converted to an integer"})
 		}
 		var t64 *Term
+		if i.cfg.AbstractConv {
+			i.noteUF("f2i")
+			name := "f2i_s"
+			if !kindSigned(dk) {
+				name = "f2i_u"
+			}
+			return i.mkSym(st.Extract(kindWidth(dk)-1, 0, st.UF(name, SBV(64), x.t)), dk)
+		}
 		if dk == types.Uint64 || dk == types.Uint || dk == types.Uintptr {
 			// amd64: x < 2^63 ? cvttsd2sq(x) : cvttsd2sq(x-2^63) ^ 1<<63
 			two63 := st.FPConst(9223372036854775808.0)
